@@ -206,6 +206,11 @@ func (s *pstream) ReadMsg(ctx context.Context, m proto.Message) error {
 	case "tampered-embedded-bid":
 		c.Bid = proto.Clone(c.Bid).(*preconfpb.Bid)
 		c.Bid.BlockNumber++
+	case "claims-other-address":
+		// a valid commitment over the bid that was sent, signed with the provider's own key, whose
+		// (unsigned) provider_address field arrives pre-filled with somebody else's 20-byte address:
+		// what the bidder reports must still be the address the signature proves
+		c.ProviderAddress = h.rng.Bytes(20)
 	case "embedded-bid-other-sig":
 		// same fields and digest, but the bid's signature bytes are not the ones that were sent
 		c.Bid = proto.Clone(c.Bid).(*preconfpb.Bid)
@@ -380,7 +385,7 @@ func main() {
 		return
 	}
 	classes := []string{"honest", "honest", "honest", "other-valid-bid", "replayed-bid", "foreign-sig", "invalid-digest", "invalid-sig", "short-sig",
-		"nil-bid", "nil-digest", "tampered-embedded-bid", "embedded-bid-other-sig", "error-frame", "garbage", "reset", "silence", "open-fails", "write-fails"}
+		"nil-bid", "nil-digest", "tampered-embedded-bid", "embedded-bid-other-sig", "claims-other-address", "error-frame", "garbage", "reset", "silence", "open-fails", "write-fails"}
 	req := func() JBid {
 		return JBid{TxHash: hx([]byte(hx(rng.Bytes(32)))), Amount: hx([]byte("1000")), Block: int64(1 + rng.Intn(1<<30)), Start: 5, End: 9}
 	}
